@@ -41,6 +41,12 @@ def fsort(bits): return z3.Float64() if bits == 64 else z3.Float32()
 def tofp(v, bits): return z3.fpBVToFP(bv(v, bits), fsort(bits))
 RNE = z3.RNE()
 
+class Partial(Undef):
+    """a wide value some of whose bytes are uninitialised (e.g. an 8-byte copy of a std::optional<int> whose payload was
+    never written): behaves as Undef in computations, but a store writes the initialised bytes back"""
+    __slots__ = ('bytes',)
+    def __init__(s, bs): Undef.__init__(s, 8 * len(bs)); s.bytes = bs
+
 class Bug(Exception):
     """a property/monitor violation candidate (with a model = concrete input)"""
     def __init__(s, kind, msg, model=None, cond=None): s.kind, s.msg, s.model, s.cond = kind, msg, model, cond
@@ -122,6 +128,11 @@ class State:
         s.nsym += 1
         return z3.BitVec('%s!%d' % (name, s.nsym), bits)
     def new_input(s, name, bits, kind='int'):
+        cq = s.eng.concrete_inputs
+        if cq is not None and kind != 'env':
+            # concrete mode (translation validation against the native build): inputs come from a recorded list
+            if not cq: raise Inconclusive('harness', 'concrete input list exhausted')
+            return cq.pop(0) & ((1 << bits) - 1)
         v = s.fresh(name, bits); s.inputs.append((kind, name, bits, v)); return v
 
 class Engine:
@@ -141,7 +152,7 @@ class Engine:
         s.undef_strict = True
         s.on_instr = None
         s.known_filter = None; s.known_hits = {}
-        s.fresh_only = False; s.inc_timeout_ms = 3000; s.alt_solver = None; s.alt_first = False; s.model_prefixes = []
+        s.fresh_only = False; s.inc_timeout_ms = 3000; s.alt_solver = None; s.alt_first = False; s.alt_trust_sat = False; s.concrete_inputs = None; s.model_prefixes = []; s.any_undef = False
         from . import models_rt
         models_rt.install(s)
 
@@ -192,6 +203,9 @@ class Engine:
                 v, info = s.alt_solver(st.pc, cond)
                 s.stats['alt_' + v] = s.stats.get('alt_' + v, 0) + 1
                 if v == 'unsat': r = z3.unsat
+                elif v == 'sat' and not s.alt_trust_sat:
+                    # the alternative encoding abstracts FP operations: its sat answers may be spurious, so they decide nothing
+                    why = 'native: %s; alternative encoding: sat (not trusted: FP abstracted)' % why
                 elif v == 'sat':
                     g = z3.Solver()
                     for bvvar, val in info.items(): g.add(bvvar == val)
@@ -201,9 +215,21 @@ class Engine:
         if r == z3.unknown: raise Inconclusive('unknown', 'solver returned unknown (%s)' % why)
         return m
     def model_true(s, st, c):
-        """evaluate Bool c under the state's witness model; None if no model"""
-        if st.model is None: return None
-        v = st.model.eval(c, model_completion=True)
+        """evaluate Bool c under the state's witness model; None if there is no (valid) model.  The model is re-validated
+        against path-condition conjuncts added since it was obtained (environment models append range constraints on
+        fresh variables), and dropped if it does not satisfy them."""
+        m = st.model
+        if m is None: return None
+        n = len(st.pc)
+        k = st.__dict__.get('model_ok', (None, 0))
+        if k[0] is not m: k = (m, 0)
+        if k[1] < n:
+            # conjuncts appended by the engine itself were checked against the model when added; the others are evaluated here
+            for cj in st.pc[k[1]:]:
+                if not z3.is_true(m.eval(cj, model_completion=True)):
+                    st.model = None; return None
+            st.model_ok = (m, n)
+        v = m.eval(c, model_completion=True)
         if z3.is_true(v): return True
         if z3.is_false(v): return False
         return None
@@ -405,7 +431,9 @@ class Engine:
         for b in bs:
             if b.__class__ is not int:
                 allint = False
-                if isinstance(b, Undef): return Undef(8 * n)
+                if isinstance(b, Undef):
+                    if n > 1 and any(not isinstance(x, Undef) for x in bs): return Partial(bs)
+                    return Undef(8 * n)
                 if isinstance(b, tuple): raise Bug('ptrsplit', 'partial load of a stored pointer')
         if allint:
             r = 0
@@ -472,7 +500,11 @@ class Engine:
         if off.__class__ is not int: off = s.concretize(st, off, what + ' offset')
         off = to_signed(off, 64)
         s.kill_overlaps(o, off, n)
-        if isinstance(v, Undef): return
+        if isinstance(v, Undef):
+            if isinstance(v, Partial) and len(v.bytes) == n:
+                for i, b in enumerate(v.bytes):
+                    if not isinstance(b, Undef): o.cells[off + i] = (1, b)
+            return
         if isinstance(v, BoolRef): v = bv(v, 8 * n)
         o.cells[off] = (n, v)
     def store_typed(s, st, p, t, v):
@@ -594,6 +626,11 @@ class Engine:
                 return P(0, v)      # null-based (e.g. SQLITE_TRANSIENT = -1); deref is a bug
             if isinstance(v, Undef): return v
             raise Bug('inttoptr', 'inttoptr of symbolic integer')
+        if v.__class__ is Partial and op in ('trunc', 'zext'):
+            n = dt.bits // 8 if dt.bits % 8 == 0 else None
+            if n is not None:
+                bs = (v.bytes + [0] * n)[:n]
+                return partial_value(bs)
         if isinstance(v, Undef): return Undef(dt.bits)
         db = dt.bits
         if op == 'trunc':
@@ -643,9 +680,19 @@ class Engine:
         ca, cb = a.__class__, b.__class__
         if ca is P or cb is P or ca is FnPtr or cb is FnPtr or ca is Lin or cb is Lin:
             return s.ptr_binop(op, bits, a, b)
-        if ca is Undef or cb is Undef:
+        if ca is Partial and cb is int:
+            r = partial_op(op, a, b, bits)
+            if r is not None: return r
+        if issubclass(ca, Undef) or issubclass(cb, Undef):
             if op == 'and' and ((ca is int and a == 0) or (cb is int and b == 0)): return 0
             if op == 'or' and ((ca is int and a == (1 << bits) - 1) or (cb is int and b == (1 << bits) - 1)): return (1 << bits) - 1
+            if bits == 1 and op in ('and', 'or') and st is not None:
+                # `or undef, x` is true whenever x is: represent the uninitialised bit as a tagged free boolean and let the
+                # branch that consumes the result decide whether it can actually depend on it
+                o = b if ca is Undef else a
+                if isinstance(o, z3.ExprRef):
+                    u = z3.Bool('undef!%d' % new_uid()); s.any_undef = True
+                    return simp(z3.And(u, boolv(o)) if op == 'and' else z3.Or(u, boolv(o)))
             return Undef(bits)
         if ca is int and cb is int:
             if op == 'add':
@@ -783,6 +830,16 @@ class Engine:
 
     def icmp(s, pred, bits, a, b):
         ca, cb = a.__class__, b.__class__
+        if ca is Lin or cb is Lin:
+            la, lb = to_lin(a), to_lin(b)
+            if la is not None and lb is not None:
+                co = dict(la[0])
+                for k, v in lb[0].items(): co[k] = co.get(k, 0) - v
+                co = {k: v for k, v in co.items() if v % (1 << 64)}
+                if not co: return s.icmp(pred, bits, la[1] if la[1].__class__ is not int else mask(la[1], 64), lb[1] if lb[1].__class__ is not int else mask(lb[1], 64))
+                if pred == 'eq': return 0        # differs by a non-trivial combination of object addresses
+                if pred == 'ne': return 1
+            raise Bug('ptrcmp', 'ordered comparison of address combinations')
         if ca is FnPtr or cb is FnPtr:
             if ca is FnPtr and cb is FnPtr: eq = a.name == b.name
             else: eq = False
@@ -806,7 +863,7 @@ class Engine:
             else:
                 a, b, bits = a.off, b.off, 64
             ca, cb = a.__class__, b.__class__
-        if ca is Undef or cb is Undef: return Undef(1)     # poison-like: only a *use* (branch, select condition, environment) is an error
+        if issubclass(ca, Undef) or issubclass(cb, Undef): return Undef(1)     # poison-like: only a *use* (branch, select condition, environment) is an error
         if ca is int and cb is int:
             if pred == 'eq': return int(a == b)
             if pred == 'ne': return int(a != b)
@@ -1080,9 +1137,31 @@ class Engine:
     def ev(s, fr, o):
         return fr.regs[o.n] if o.__class__ is Reg else o
 
+    def undef_vars(s, c):
+        out = []; seen = set(); work = [c]
+        while work:
+            x = work.pop(); i = x.get_id()
+            if i in seen: continue
+            seen.add(i)
+            if z3.is_const(x) and x.decl().kind() == z3.Z3_OP_UNINTERPRETED:
+                if x.decl().name().startswith('undef!'): out.append(x)
+            else: work.extend(x.children())
+        return out
     def fork_branch(s, st, fr, work, c, on_true, on_false):
         """c symbolic Bool. Explore both feasible sides."""
         c = boolv(c)
+        us = s.undef_vars(c) if s.any_undef else []
+        if us:
+            # the condition mentions uninitialised bits: it is a genuine use of an uninitialised value iff its truth can depend on them
+            c0 = z3.substitute(c, *[(u, z3.BoolVal(False)) for u in us]); c1 = z3.substitute(c, *[(u, z3.BoolVal(True)) for u in us])
+            dep = simp(z3.Xor(c0, c1))
+            if dep.__class__ is int:
+                if dep: raise Bug('undef', 'branch depends on an uninitialised value', s._m(st))
+            else: s.check_bug(st, dep, 'undef', 'branch depends on an uninitialised value')
+            c = simp(c0)
+            if c.__class__ is int:
+                (on_true if c else on_false)(st, fr); return
+            c = boolv(c)
         mv = s.model_true(st, c)
         if mv is None:
             s.ensure_model(st); mv = s.model_true(st, c)
@@ -1478,6 +1557,31 @@ def from_lin(co, off):
     if not co: return off
     if len(co) == 1 and list(co.values())[0] == 1: return P(list(co)[0], off)
     return Lin(co, off)
+
+def partial_value(bs):
+    """bytes (little endian; ints / 8-bit terms / Undef) -> int, term, Partial or Undef"""
+    if all(isinstance(b, Undef) for b in bs): return Undef(8 * len(bs))
+    if any(isinstance(b, Undef) for b in bs): return Partial(list(bs))
+    if all(b.__class__ is int for b in bs):
+        r = 0
+        for i, b in enumerate(bs): r |= b << (8 * i)
+        return r
+    return simp(z3.Concat(*[bv(b, 8) for b in reversed(bs)])) if len(bs) > 1 else bs[0]
+def partial_op(op, a, k, bits):
+    """byte-granular operations on a partially initialised value with a constant: shifts by whole bytes, masks of whole bytes"""
+    n = bits // 8; bs = list(a.bytes) + [Undef(8)] * (n - len(a.bytes))
+    if op == 'lshr' and k % 8 == 0: return partial_value((bs[k // 8:] + [0] * n)[:n])
+    if op == 'shl' and k % 8 == 0: return partial_value(([0] * (k // 8) + bs)[:n])
+    if op == 'and':
+        out = []
+        for i in range(n):
+            m = (k >> (8 * i)) & 0xff
+            if m == 0: out.append(0)
+            elif m == 0xff: out.append(bs[i])
+            elif isinstance(bs[i], Undef): return None
+            else: out.append(bs[i] & m if bs[i].__class__ is int else simp(bv(bs[i], 8) & m))
+        return partial_value(out)
+    return None
 
 class _Forked: pass
 FORKED = _Forked()
